@@ -78,9 +78,6 @@ theorem wl_writeControl (s : W) (t : Int) (data : Bytes) (d : Int) : (writeContr
       · exact wl_ctlKey s
       · exact (wl_connWrite _ _ _ _ _).trans (wl_ctlKey s)
 
-theorem wl_writePreparedImage (s : W) (t : Int) (img : Bytes) : (writePreparedImage s t img).2.wbufLen = s.wbufLen := by
-  unfold writePreparedImage; exact wl_connWrite _ _ _ _ _
-
 theorem wl_poolPut (s : W) : (poolPut s).wbufLen = s.wbufLen := by
   unfold poolPut; split <;> rfl
 
@@ -328,6 +325,42 @@ theorem feed_stepZ (s : W) (m : MW) (cs : List Bytes) : StepZ s m (feed s m cs).
     · rename_i e s' m' heq; rw [heq] at h1; exact h1
     · rename_i s' m' heq; rw [heq] at h1
       exact h1.trans (ih s' m')
+
+/-! ### Close on a handle, the implicit close, and the prepared send do not change the buffer size -/
+
+theorem wl_hClose (s : W) (h : Nat) (dn : List Bytes) (full : Bytes) : (hClose s h dn full).2.wbufLen = s.wbufLen := by
+  unfold hClose
+  split
+  · rfl
+  · exact (mwClose_stepZ _ _).wl
+  · dsimp only
+    split
+    · rfl
+    · split
+      · rfl
+      · rename_i i fwOpen derr sent _ _
+        have h1 : (feed s (getMW s i) dn).2.1.wbufLen = s.wbufLen := (feed_stepZ s (getMW s i) dn).wl
+        split
+        · exact h1
+        · split
+          · exact h1
+          · split
+            · exact h1
+            · exact ((mwClose_stepZ _ _).wl).trans h1
+
+theorem wl_closePrev (s : W) (dnp : List Bytes) (fullp : Bytes) : (closePrev s dnp fullp).wbufLen = s.wbufLen := by
+  unfold closePrev
+  split
+  · exact wl_hClose s _ dnp fullp
+  · rfl
+
+theorem wl_writePreparedImage (s : W) (t : Int) (img : Bytes) (dnp : List Bytes) (fullp : Bytes) :
+    (writePreparedImage s t img dnp fullp).2.wbufLen = s.wbufLen := by
+  unfold writePreparedImage
+  refine (wl_connWrite _ _ _ _ _).trans ?_
+  split
+  · exact wl_closePrev s dnp fullp
+  · rfl
 
 /-! ### a failing Write ends the messageWriter (buffer not empty: no `hang`) -/
 
